@@ -202,6 +202,9 @@ def run_models(rng, nmodels, npoints, want=("F", "J"), module_every=8, kinds=Non
         fixed = list(gens) if gens is not None else lang.corpus()
         for k in range(nmodels + (len(fixed) if gens is None else 0) if gens is None else len(fixed)):
             gm = fixed[k] if k < len(fixed) else lang.Gen(rng, kind=(None if kinds is None else str(rng.choice(kinds)))).model()
+            # corpus models added later draw their points from a generator of their own, so that the random models that follow
+            # (and what the seeded changes of section 14 need of them) stay what they were
+            rng_k = np.random.default_rng([4242, k]) if getattr(gm, "own_rng", False) else rng
             stats["models"] += 1
             stats["kinds"][gm.kind] = stats["kinds"].get(gm.kind, 0) + 1
             for (_, pk, _) in gm.pars:
@@ -222,15 +225,15 @@ def run_models(rng, nmodels, npoints, want=("F", "J"), module_every=8, kinds=Non
                 continue
             for msg in layout_problems(b):
                 problems.append(dict(model=gm.describe(), what=msg, kind="layout"))
-            pts = gen_points(gm, rng, npoints)
+            pts = gen_points(gm, rng_k, npoints)
             if "J" in want:
                 # a point with some state elements exactly 0: derivative entries that vanish there (d(x*z)/dz = x) must stay in the
                 # stored sparse pattern; only the pattern is judged at this point when it lies near a kink
                 t_, y_, ov_, yp_ = pts[-1]
                 yz = np.array(y_, dtype=float).copy()
-                mask = rng.random(yz.shape[0]) < 0.6
+                mask = rng_k.random(yz.shape[0]) < 0.6
                 if not mask.any():
-                    mask[int(rng.integers(0, yz.shape[0]))] = True
+                    mask[int(rng_k.integers(0, yz.shape[0]))] = True
                 yz[mask] = 0.0
                 pts.append((t_, yz, ov_, yp_))
             eq_names = [e[0] for e in gm.eqs]
